@@ -1,0 +1,16 @@
+//go:build verif
+
+package sqlite
+
+import "database/sql"
+
+// SetDBOpenerForVerif substitutes the function used to open the database, so that a
+// verification harness can route the store through a fault-injecting database/sql driver.
+// Compiled only with the "verif" build tag.
+func SetDBOpenerForVerif(opener func(driverName, dataSourceName string) (*sql.DB, error)) {
+	if opener == nil {
+		dbOpener = sql.Open
+		return
+	}
+	dbOpener = opener
+}
